@@ -64,6 +64,6 @@ m = {"version": 1,
      "engines": [{"name": "sigcheck", "path": "/verif/checker", "serves_properties": sorted(claimed), "kind_free_text": "repository-specific static analyzer: symbolic interpreter over go/ssa (path summaries, loop summaries, polynomial normal forms), numeric abstract interpreter per instantiation, allocation-site analysis, compile-only escape cross-reference"}],
      "checks": checks,
      "not_applicable": na,
-     "notes": "All checks are static (no code of pipelined/signal is executed). Known findings: /verif/known_findings.json (D8 known; D1-D7 and D9 fixed in /repo). Self-test of the checker (not a property check): ./selftest.sh [-seeded] [-refactorings] over /verif/mutants (breaking and benign patches), /verif/seeded (199 independent breaking changes, each reported by its own property's check), /verif/refactorings (392 property-preserving edits: refactorings, correct feature additions and behaviour changes no property forbids, all checks silent), /verif/refactorings_open (8 documented limitations); tools/mutsweep.py is the single-token mutation sweep of DESIGN.md 8.11."}
+     "notes": "All checks are static (no code of pipelined/signal is executed). Known findings: /verif/known_findings.json (D8 known; D1-D7 and D9 fixed in /repo). Self-test of the checker (not a property check): ./selftest.sh [-seeded] [-refactorings] over /verif/mutants (breaking and benign patches), /verif/seeded (239 independent breaking changes, each reported by its own property's check), /verif/refactorings (392 property-preserving edits: refactorings, correct feature additions and behaviour changes no property forbids, all checks silent), /verif/refactorings_open (8 documented limitations); tools/mutsweep.py is the single-token mutation sweep of DESIGN.md 8.11."}
 json.dump(m, open('/verif/MANIFEST.json', 'w'), indent=1)
 print(len(checks), "checks;", len(na), "not applicable")
